@@ -404,6 +404,7 @@ func cmdFuzzDec(args []string) {
 		if *only != 0 && id != *only {
 			continue
 		}
+		markInflight(id, 0, "Decode")
 		r := rand.New(rand.NewSource(*seed*7368787 + int64(id)))
 		// a valid base bitmap of a random shape
 		keys := randKeys(r, 1+r.Intn(6))
@@ -572,6 +573,7 @@ func cmdFuzzDec(args []string) {
 // rawEvent builds an event that does not go through the executor (no bitmap call of the slot machinery).
 func (e *Exec) rawEvent(c Call) *Event {
 	e.idx++
+	markInflight(e.tr, e.idx, c.Op)
 	return &Event{Call: c, Tr: e.tr, I: e.idx, Post: []SlotAtoms{}, Bad: []SlotMsg{}, Rep: []SlotRep{}, Bufch: []int{}, Aux: true, Argok: true, Alias: [][2]int{}, Probe: []ProbeRec{}}
 }
 
